@@ -36,6 +36,7 @@ type fakeConn struct {
 	reof     bool          // remote closed (FIN) after segs
 	rreset   bool          // remote reset: reads and writes fail at once
 	closed   bool          // corebgp called Close
+	held     bool          // handed to corebgp (accepted or returned by the dialer)
 	nClose   int
 	nWrAfter int // writes attempted after local Close
 	consumed int // bytes corebgp has read
@@ -232,6 +233,9 @@ func (l *fakeListener) Accept() (net.Conn, error) {
 			l.mu.Unlock()
 			// logged by the accept goroutine: from here on corebgp holds c
 			if fc, ok := c.(*fakeConn); ok {
+				fc.mu.Lock()
+				fc.held = true
+				fc.mu.Unlock()
 				l.tr.emit(event{E: "acc", C: fc.name})
 			}
 			return c, nil
